@@ -191,6 +191,27 @@ func (ps *posSource) randomMaterial() string {
 	if r.Intn(5) == 0 {
 		pieces = "QQRRNBqqrrnbPp" // promotion heavy
 	}
+	if r.Intn(12) == 0 {
+		// maximal legal material for one side (nine queens, two rooks, bishops, knights) against little
+		side := r.Bool()
+		for _, pc := range "QQQQQQQQQRRBBNN" {
+			if r.Intn(8) == 0 {
+				continue
+			}
+			for tries := 0; tries < 20; tries++ {
+				s := r.Intn(64)
+				if board[s] == 0 {
+					c := byte(pc)
+					if side {
+						c += 32
+					}
+					board[s] = c
+					break
+				}
+			}
+		}
+		n = r.Intn(3)
+	}
 	for i := 0; i < n; i++ {
 		s := r.Intn(64)
 		if board[s] != 0 {
